@@ -224,6 +224,8 @@ class Evaluator:
         self.inline_depth = inline_depth
         self.len_map: Dict[str, Rat] = {}         # array symbol name -> its length
         anf.LENGTH_HOOK = self.length_of           # the evaluator in use normalises end-relative positions
+        from . import report as _report
+        _report.OPAQUE_FALLBACKS = self.opaque_fallbacks = set()   # the evaluator in use records the private helpers it could not read
         self.length_values: set = set()           # keys of values produced by len(): non-negative integers
         self.array_syms: set = set()
         self.fresh = 0
@@ -1055,6 +1057,10 @@ class Frame:
             key = "lambda:" + norm_text(e)
             ev.fn_registry[key] = (e, self.fi, env)
             return Obj("lambda", key)
+        if isinstance(e, (ast.ListComp, ast.GeneratorExp)) and len(e.generators) == 1 and not e.generators[0].is_async:
+            unrolled = self._unrolled_comprehension(e, env)
+            if unrolled is not None:
+                return unrolled
         if isinstance(e, (ast.ListComp, ast.GeneratorExp)) and self.ev.summarise_loops and self.havoc_depth == 0:
             from .seqdom import comprehension, NoSummary
             try:
@@ -1150,6 +1156,15 @@ class Frame:
         if isinstance(sl, ast.UnaryOp) and isinstance(sl.op, ast.USub) and isinstance(sl.operand, ast.Constant) \
                 and isinstance(sl.operand.value, int):
             return -sl.operand.value
+        if isinstance(sl, ast.Name) and sl.id not in env:
+            # a module-level integer constant used as a column / component number (`_X = 0; points[:, _X]`)
+            try:
+                v = self.expr(sl, env)
+            except Unsupported:
+                return None
+            c = v.is_const() if isinstance(v, Rat) else None
+            if c is not None and c.denominator == 1:
+                return int(c)
         return None
 
     def _sub_value(self, base, idx):
@@ -1170,6 +1185,10 @@ class Frame:
                 if isinstance(idx, G):
                     return Vec([anf.opaque("mask", c, ev.to_rat(idx), array=True) for c in base.items], "point")
                 return Vec([anf.opaque("take", c, ev.to_rat(idx), array=True) for c in base.items], "point")
+            if base.kind == "list":
+                it = self._list_item(base, idx)
+                if it is not None:
+                    return it
             c = idx.is_const() if isinstance(idx, Rat) else None
             if c is not None and c.denominator == 1 and -len(base.items) <= int(c) < len(base.items):
                 return base.items[int(c)]
@@ -1234,6 +1253,10 @@ class Frame:
                     ik = self.ev.to_rat(idx)
                     return Vec([anf.opaque("take", c, ik, array=True) for c in base.items], "point")
                 return Vec([anf.opaque("take", c, ev.to_rat(idx), array=True) for c in base.items], "point")
+            if base.kind == "list" and not isinstance(sl, (ast.Slice, ast.Tuple)):
+                it = self._list_item(base, Rat.const(ci) if ci is not None else self.expr(sl, env))
+                if it is not None:
+                    return it
             if ci is not None:
                 if -len(base.items) <= ci < len(base.items):
                     return base.items[ci]
@@ -1287,6 +1310,61 @@ class Frame:
         if ir.is_array():
             return anf.opaque("take", r, ir, array=True)
         return self._at(r, ir)
+
+    def _unrolled_comprehension(self, e, env):
+        """[f(c) for c in <display of known items>]: one element per item, in order.  None when the iterable is not a tuple / list
+        display whose items are all known, or a filter cannot be decided."""
+        from .seqdom import Gen
+        g = e.generators[0]
+        if not isinstance(g.iter, (ast.Name, ast.Tuple, ast.List)):
+            return None
+        try:
+            it = self.expr(g.iter, env)
+        except Unsupported:
+            return None
+        if not (isinstance(it, Vec) and it.kind in ("tuple", "list") and not any(isinstance(i_, Gen) for i_ in it.items)) or len(it.items) > 8:
+            return None
+        out = []
+        for item in it.items:
+            loc = dict(env)
+            try:
+                self.assign(g.target, item, loc, TRUE, None)
+                keep_ = TRUE
+                for c in g.ifs:
+                    keep_ = g_and(keep_, self.cond(c, loc))
+                if keep_.kind == "false":
+                    continue
+                if keep_.kind != "true":
+                    return None
+                out.append(self.expr(e.elt, loc))
+            except Unsupported:
+                return None
+        return Vec(out, "list")
+
+    def _list_item(self, base: "Vec", idx):
+        """base[idx] of a list that holds a summarised block: the element of the block at that position (the position is taken
+        to exist, as for arrays).  None when the list has no block (plain item selection applies)."""
+        from .seqdom import Gen, flatten, subst_value, NoSummary
+        items = flatten(base.items)
+        if not any(isinstance(i, Gen) for i in items):
+            return None
+        if not (isinstance(idx, Rat) and not idx.is_array()):
+            raise Unsupported("a list built by a summarised loop is indexed by a value that is not a scalar position")
+        c = idx.is_const()
+        # plain items in front of the first block are positions 0..k-1
+        k = 0
+        while not isinstance(items[k], Gen):
+            k += 1
+        if c is not None and c.denominator == 1 and 0 <= int(c) < k:
+            return items[int(c)]
+        g = items[k]
+        if len(items) == k + 1 and (c is None or c >= k) and g.ranged and g.lo is not None and g.lo.is_zero() and g.step.is_const() == 1 \
+                and len(g.parts) == 1 and g.parts[0][0].kind == "true" and not g.parts[0][2]:
+            try:
+                return subst_value(g.parts[0][1], {g.var: idx.sub(Rat.const(k))})
+            except NoSummary as e:
+                raise Unsupported(f"element of a summarised list: {e}")
+        raise Unsupported("element of a list built by a conditional or spliced summarised loop")
 
     def _at(self, arr: Rat, idx: Rat) -> Rat:
         """Element of an element-wise expression = the expression of the elements."""
